@@ -1164,8 +1164,25 @@ pub fn run(out: &mut Out, tier: &str, seed: u64, prop: &str) {
             }
         }
         "C13" => {
-            for _ in 0..n_ops {
-                let a = &items[rng.below(items.len())];
+            // comparisons at the end points of the value orders (the empty string, version 0), every operator, alone / negated / with an
+            // extra beside them: an edge such as `(-inf, ""]` holds exactly one value and is satisfiable
+            let mut items = items;
+            let mut endpoint_items: Vec<Item> = Vec::new();
+            for (t0, is_ver) in [(Term::S(1, 0, String::new()), false), (Term::S(12, 0, String::new()), false), (Term::S(1, 0, "a".into()), false), (Term::V(1, 0, "0".into()), true), (Term::V(0, 0, "0.0".into()), true)] {
+                for op in 0..6usize {
+                    let atom = match &t0 { Term::S(k, _, v) => Term::S(*k, op, v.clone()), Term::V(k, _, v) => Term::V(*k, op, v.clone()), _ => unreachable!() };
+                    let _ = is_ver;
+                    for t in [atom.clone(), Term::not(atom.clone()), Term::and(atom.clone(), Term::X(false, "dev".into())), Term::or(Term::not(atom.clone()), Term::X(false, "test".into())), Term::and(Term::not(atom.clone()), Term::X(true, "dev".into()))] {
+                        let Some(tree) = try_build(out, "C13", &t) else { return };
+                        endpoint_items.push(Item { dump: dump(&tree), term: t, tree });
+                    }
+                }
+            }
+            let n_end = endpoint_items.len();
+            items.extend(endpoint_items);
+            let n_items = items.len();
+            for round in 0..(n_ops + n_end) {
+                let a = if round < n_end { &items[n_items - n_end + round] } else { &items[rng.below(n_items - n_end)] };
                 let sets: Vec<Vec<&str>> = vec![vec![], vec!["dev"], vec!["test", "foo-bar"], vec!["dev", "test", "a", "b", "x.y", "foo.bar"]];
                 let mut bits = String::new();
                 let mut toks = Vec::new();
